@@ -134,3 +134,14 @@ def replay(pid, path):
         print('replayed: %d mismatch(es)' % len(mism))
         return 1 if mism else 0
     return 2
+
+
+# ----------------------------------------------------------------------------- plug-in checks
+# every bin/p_<ID>.py module registers its check with @props.prop('<ID>')
+def _load_plugins():
+    import glob, importlib
+    for f in sorted(glob.glob(os.path.join(os.path.dirname(os.path.abspath(__file__)), 'p_*.py'))):
+        importlib.import_module(os.path.basename(f)[:-3])
+
+
+_load_plugins()
